@@ -1166,7 +1166,9 @@ class HttpPayloadParser:
 
                     self._trailer_lines.append(line)
 
-                    if len(self._trailer_lines) > self._max_trailers:
+                    # The empty line ending the section is not a trailer field:
+                    # a body without trailers fits whatever the headers left.
+                    if line and len(self._trailer_lines) > self._max_trailers:
                         raise BadHttpMessage("Too many trailers received")
 
                     # \r\n\r\n found, end of stream
